@@ -353,7 +353,35 @@ class NestedLoops(Component):
             s.cnt @= s.cnt + (i + j + 1)
 
 
+class IfcArrChild(Component):
+  """child with lists of mixed-direction (val/rdy style) interfaces"""
+  def construct(s):
+    from pymtl3.stdlib.ifcs import RecvIfcRTL, SendIfcRTL
+    s.recv = [RecvIfcRTL(Bits8) for _ in range(2)]
+    s.send = [SendIfcRTL(Bits8) for _ in range(2)]
+    @update
+    def up_iac():
+      for i in range(2):
+        s.send[i].msg @= s.recv[1 - i].msg + (i + 1)
+        s.send[i].en @= s.recv[1 - i].en & s.send[i].rdy
+        s.recv[1 - i].rdy @= s.send[i].rdy
+
+
+class SubIfcArr(Component):
+  """a NON-top component with interface arrays of mixed directions, wired to the parent's interfaces and to a sibling"""
+  def construct(s):
+    from pymtl3.stdlib.ifcs import RecvIfcRTL, SendIfcRTL
+    s.recv = [RecvIfcRTL(Bits8) for _ in range(2)]
+    s.send = [SendIfcRTL(Bits8) for _ in range(2)]
+    s.a = IfcArrChild(); s.b = IfcArrChild()
+    for i in range(2):
+      s.a.recv[i] //= s.recv[i]
+      s.b.recv[i] //= s.a.send[i]
+      s.send[i] //= s.b.send[i]
+
+
 DESIGNS = {
+  'x:SubIfcArr': SubIfcArr,
   'x:StructInstBehav': StructInstBehav, 'x:IfcNested': IfcNested, 'x:SubcompBehav': SubcompBehav, 'x:ElifChain': ElifChain,
   'x:VarIdx2D': VarIdx2D, 'x:NestedLoops': NestedLoops,
   'x:NestedStructIn': NestedStructIn, 'x:IfcPortArray': IfcPortArray, 'x:IfcPortArrayConnect': IfcPortArrayConnect,
